@@ -934,6 +934,10 @@ func Run(tier string) int {
 		caps, _ := rep.Coverage["caps_hit"].([]string)
 		rep.Coverage["caps_hit"] = append(caps, "deadline inside the truncation checks of a file")
 	}
+	// E6: interleavings of concurrent operations on one cache file under the controlled scheduler
+	for k, v := range runSched(rep, e, tier) {
+		rep.Coverage[k] = v
+	}
 	stats.fill(rep.Coverage)
 	e.tally.fill(rep.Coverage)
 	if s, ok := rep.Coverage["samples"].([]string); ok {
